@@ -84,7 +84,7 @@ def harness_fns(hdir):
         src = open(os.path.join(hdir, m + '.rs')).read()
         par = harness_parent(hdir, m)
         for fn in re.findall(r'^pub fn (ht?_\w+)\s*\(\s*\)', src, re.M):
-            path = ('crate::%s::verif_%s::%s' % (par, m, fn)) if par else ('super::%s::%s' % (m, fn))
+            path = ('crate::verif_%s::%s' % (m, fn)) if par else ('super::%s::%s' % (m, fn))
             out.append((m, fn, path))
     return out
 
@@ -124,6 +124,17 @@ def overlay(scratch, hdir, with_replay_main):
         with open(host, 'a') as f:
             f.write('\n#[cfg(any(verif_mir, verif_replay))]\n#[allow(missing_docs, dead_code, unused_imports, unused_variables, unused_mut, clippy::all)]\n'
                     '#[path = "%s"]\npub mod verif_%s;\n' % (updir, m))
+        # re-export the mounted module up to the crate root (ancestors may be private modules)
+        segs = par.split('::')
+        for depth in range(len(segs) - 1, -1, -1):
+            if depth == 0:
+                anc = os.path.join(base, 'src', 'lib.rs')
+            else:
+                rel2 = '/'.join(segs[:depth])
+                c2 = [os.path.join(base, 'src', rel2 + '.rs'), os.path.join(base, 'src', rel2, 'mod.rs')]
+                anc = [c for c in c2 if os.path.exists(c)][0]
+            with open(anc, 'a') as f:
+                f.write('\n#[cfg(any(verif_mir, verif_replay))]\n#[allow(unused_imports)]\npub use self::%s::verif_%s;\n' % (segs[depth], m))
     mods = top
     with open(os.path.join(vdir, 'registry.rs'), 'w') as f:
         f.write(gen_registry(hdir))
